@@ -150,9 +150,10 @@ def replay(ctx, data):
     else:
         print("spec: REJECT - witness path:")
         print("\n".join(l for l in r.out.splitlines() if l.startswith(("State ", "/\\ w", "/\\ st", "Error:"))))
+    import lin_life
     import runner
-    res = runner.run_job(R.job(p))
-    print("repo:", res["status"], json.dumps(res.get("error")), "\n", res.get("rendered", ""))
+    print("repo:", json.dumps(R.outcome(lin_life.life_job(R.job(p)))))
+    print(runner.run_job(dict(R.job(p), args=[])).get("rendered", ""))
 
 
 # fixed corpus with the expected witness kinds (checks the spec against the documented rules)
@@ -193,8 +194,6 @@ def corpus():
 
 
 def selftest(ctx):
-    import runner
-
     # 1. the specification classifies the fixed corpus as documented, and /repo agrees with it
     cs = corpus()
     ev = R.evaluate(ctx, cs, tag="corpus")
